@@ -62,6 +62,9 @@ META["rule"] += (
 META["rule"] += (
     " " + 'Added after the sixth round: every fifth network of the master-loop family is directed (a third of the links keep one direction).')
 
+META["rule"] += (
+    " " + 'Added after the seventh round: hub-and-spoke components of 21 .. 40 nodes, every third network.')
+
 MEASURES = [
     ("newman_betweenness", {}),
     ("nsi_newman_betweenness", {}),
@@ -155,6 +158,27 @@ def master_loop_cases(ctx):
             if nets % 5 == 0:
                 sizes.append(int(r.integers(3, 11)))
         A = multi_component(r, sizes, small=(1, 2) if nets % 2 else ())
+        if nets % 3 == 2:
+            # a hub-and-spoke component (one node carries most of the
+            # links: chunks cut by link shares would be very uneven), the hub
+            # somewhere in the middle of the numbering, a path and a few
+            # extra links among the nodes behind it
+            nh = int(r.integers(21, 41))
+            A = np.zeros((nh, nh), dtype=np.int8)
+            h = int(r.integers(2, nh - 4))
+            A[h, :] = A[:, h] = 1
+            A[h, h] = 0
+            for i in range(h + 1, nh - 1):
+                A[i, i + 1] = A[i + 1, i] = 1
+            if r.random() < 0.5:
+                for i in range(0, h - 1):
+                    A[i, i + 1] = A[i + 1, i] = 1
+            for _ in range(4):
+                i, j = (int(v) for v in r.integers(0, nh, 2))
+                if i != j:
+                    A[i, j] = A[j, i] = 1
+            sizes = [nh]
+            ctx.count("hub_and_spoke_networks")
         n = len(A)
         directed = (nets % 5 == 2)
         if directed:
